@@ -86,6 +86,7 @@ func genC10(rt *rapid.T) C10Case {
 	w[OpSetRecreate] = 1
 	w[OpSetRemove] = 1
 	w[OpEditLimit] = 1
+	w[OpPodSwapped] = 1
 	o.weights = w
 	c := C10Case{W: genWorld(rt, o), Other: rapid.Bool().Draw(rt, "otherSet")}
 	if rapid.IntRange(0, 7).Draw(rt, "recreatedTwice") == 0 {
